@@ -829,6 +829,10 @@ def check_c10(ctx):
             if len(prop_fail) >= 3:
                 break
     ctx.streams['tsan_scenarios'] = {'runs': len(res), 'events_logged': logged, 'reports': len(prop_fail)}
+    # operations of other threads let in at every mutex unlock inside consume / reconsumeMetadata / registration (the real
+    # Session under AddressSanitizer): an access to a buffer another thread has meanwhile freed or moved is a data race
+    if inject_stream(ctx, 'C10'):
+        prop_fail.add('inject')
     finish_proof(ctx, ok, bool(prop_fail))
     ctx.coverage.update({'evaluations': len(res), 'distinct_nontrivial': len(res), 'traces_validated_against_impl': len(res) - len(prop_fail),
                          'rule': 'ThreadSanitizer runs of the real, unmodified headers: 2..6 writer threads (log with small queues forcing channel '
